@@ -66,9 +66,6 @@ func AStar(s, t graph.Node, g traverse.Graph, h Heuristic) (path Shortest, expan
 		for to.Next() {
 			v := to.Node()
 			vid := v.ID()
-			if visited.Has(vid) {
-				continue
-			}
 			j, ok := path.indexOf[vid]
 			if !ok {
 				j = path.add(v)
@@ -82,6 +79,15 @@ func AStar(s, t graph.Node, g traverse.Graph, h Heuristic) (path Shortest, expan
 				panic("path: A* negative edge weight")
 			}
 			g := u.gscore + w
+			if visited.Has(vid) {
+				if g >= path.dist[j] {
+					continue
+				}
+				// With an admissible but inconsistent heuristic
+				// a node can be expanded before its shortest path
+				// is known. Re-open it.
+				visited.Remove(vid)
+			}
 			if n, ok := open.node(vid); !ok {
 				path.set(j, g, i)
 				heap.Push(open, aStarNode{node: v, gscore: g, fscore: g + h(v, t)})
